@@ -52,6 +52,7 @@ package trace
 //@ func snapshot.DecRef
 //@   mode int
 //@   opt wrap int32
+//@   at-call atomic.LoadInt32 requires decrement-and-test-are-one-atomic-step: false
 //@   requires s != nil && partsOK(s) && s.ref > -2147483648
 //@   modifies s.ref
 //@   modifies s.parts
